@@ -21,10 +21,21 @@ Hooked primitives (an *event* is a top-level call of one of them while a save is
   injection only   pure    AutoSerialize._write_ndarray/_write_bytes (entry), dill.dumps, torch.save,
                            gzip.compress       (no effect on disk: a fault here is a fault before the
                            next state-changing effect)
+  inside an event  store   LocalStore.set / set_if_not_exists / delete / delete_dir (the store's own key writes
+                           BENEATH a zarr mutator: a "deep" fault interrupts the event part-way)
+
+Fault kinds (round 5): ONE-SHOT (the call at position j fails once) and PERSISTENT (the call at position j fails
+and so does every later call at the same SITE = (primitive, zarr path of the group / array / attribute owner,
+item name) -- what a failing disk / a mount that stays away does: repeating the write does not help).  Exception
+classes: OSError without errno, OSError(errno) for EIO ENOSPC EACCES ESTALE EAGAIN EINTR EBUSY ETIMEDOUT (the real
+built-in class the errno maps to: PermissionError, BlockingIOError, InterruptedError, TimeoutError ...),
+RuntimeError, MemoryError, and for one-shot faults the BaseException classes.  The tracer reports how often the
+fault fired (`hits`) and whether the SAME write was later completed (`overcome`: a retry that succeeded).
 """
 from __future__ import annotations
 
 import contextlib
+import errno as _errno
 import hashlib
 import io
 import logging
@@ -68,6 +79,22 @@ class InjectedBase(BaseException):  # a BaseException that is none of the built-
 
 EXC = {"os": InjectedOSError, "rt": InjectedRuntimeError, "kbd": InjectedInterrupt,
        "sysexit": InjectedSystemExit, "genexit": InjectedGeneratorExit, "base": InjectedBase}
+OS_ERRNOS = ["EIO", "ENOSPC", "EACCES", "ESTALE", "EAGAIN", "EINTR", "EBUSY", "ETIMEDOUT"]
+
+
+def make_exc(kind, msg):
+    """the exception object of fault kind `kind`; every injected exception carries the flag _c08_injected"""
+    if kind.startswith("os:"):
+        code = getattr(_errno, kind[3:])
+        e = OSError(code, os.strerror(code) + " [" + msg + "]")     # the built-in subclass the errno maps to
+    elif kind == "mem":
+        e = MemoryError(msg)
+    else:
+        e = EXC[kind](msg)
+    e._c08_injected = True
+    return e
+
+
 INJECTED = (InjectedOSError, InjectedRuntimeError, InjectedInterrupt, InjectedSystemExit, InjectedGeneratorExit,
             InjectedBase)
 
@@ -75,10 +102,21 @@ INJECTED = (InjectedOSError, InjectedRuntimeError, InjectedInterrupt, InjectedSy
 # ------------------------------------------------------------------------------------------
 # tracer
 class Tracer:
-    def __init__(self, target, inject_at=None, exc="os", handler_fault=None, inside_remove=None):
+    def __init__(self, target, inject_at=None, exc="os", handler_fault=None, inside_remove=None, persist=False,
+                 deep=None):
         self.target = os.path.abspath(str(target))
         self.inject_at = inject_at
-        self.exc = EXC[exc]
+        self.exc_kind = exc
+        self.persist = bool(persist)      # every later call at the site of the fault fails too
+        self.deep = deep                  # None | m: the fault is raised by the m-th store operation INSIDE event inject_at
+        self.site = None                  # site of the event the fault fired at
+        self.sites = []                   # site of every event (parallel to events)
+        self.hits = 0                     # how often the fault was raised
+        self.overcome = False             # the same write (same site) was completed after the fault had fired
+        self.cur = None                   # index of the top-level event being executed
+        self.store_ops = []               # per event: keys of the store operations beneath it
+        self.deep_key = None
+        self.inflight = 0                 # store operations being executed right now (zarr's I/O thread)
         self.events = []  # [kind, name, detail, completed]
         self.depth = 0
         self.active = False
@@ -89,6 +127,9 @@ class Tracer:
         self.inside_remove = inside_remove    # None | j: shutil.rmtree(target) removes j files, then raises
         self.temps = []                       # directories handed out by tempfile.mkdtemp during the save
         self.audit = []                       # [site, absolute path]: the path every target-naming site was given
+
+    def make_exc(self, msg):
+        return make_exc(self.exc_kind, msg)
 
     def is_target(self, p):
         try:
@@ -122,10 +163,19 @@ def _wrap(orig, kind, name, relevant=None, detail=None, nesting=True):
                 d = str(detail(tr, a, kw))
             except Exception:  # noqa
                 d = "?"
+        site = _site(kind, name, d, a)
         tr.events.append([kind, name, d, False])
-        if tr.inject_at == j and not tr.fired:
+        tr.sites.append(site)
+        tr.store_ops.append([])
+        if tr.inject_at == j and not tr.fired and tr.deep is None:
             tr.fired = True
-            raise tr.exc("injected fault before event %d (%s %s %s)" % (j, kind, name, d))
+            tr.site = site
+            tr.hits = 1
+            raise tr.make_exc("injected fault before event %d (%s %s %s)" % (j, kind, name, d))
+        if tr.persist and tr.fired and tr.deep is None and site == tr.site:
+            tr.hits += 1       # a persistent fault: the same call at the same site fails again
+            raise tr.make_exc("injected persistent fault, call #%d at the site of event %d (%s %s %s)"
+                              % (tr.hits, tr.inject_at, kind, name, d))
         if kind == "zclose" and tr.handler_fault == "zclose" and tr.fired and not tr.hfired:
             # ZipFile.__exit__ -> close() while the injected exception propagates: the handler itself fails
             tr.hfired = True
@@ -145,15 +195,80 @@ def _wrap(orig, kind, name, relevant=None, detail=None, nesting=True):
             raise InjectedOSError("injected fault inside shutil.rmtree(target) after %d files" % n)
         if nesting:
             tr.depth += 1
+            tr.cur = j
         try:
             r = orig(*a, **kw)
         finally:
             if nesting:
                 tr.depth -= 1
+                tr.cur = None
         tr.events[j][3] = True
+        if tr.fired and tr.site is not None and site == tr.site and j > tr.inject_at:
+            tr.overcome = True          # the write that had failed was repeated and completed
         if kind == "mktemp":
             tr.temps.append(os.path.abspath(r if isinstance(r, str) else r[1]))
         return r
+
+    wrapper.__name__ = getattr(orig, "__name__", name)
+    wrapper.__wrapped__ = orig
+    return wrapper
+
+
+def _site(kind, name, d, a):
+    """(primitive, zarr path of the object it is called on, item): the identity of a write for persistent faults"""
+    item = ""
+    try:
+        o = a[0] if a else None
+        p = getattr(o, "path", None)
+        if p is None and hasattr(o, "_obj"):
+            p = getattr(o._obj, "path", None)       # zarr Attributes -> its group / array
+        if isinstance(p, str):
+            item = p
+    except Exception:  # noqa
+        pass
+    return (kind, name, item, d)
+
+
+def _wrap_store(orig, name):
+    """a store-level key operation beneath a hooked zarr mutator (runs on zarr's I/O thread while the caller
+    waits): recorded per event; the place of a `deep` fault.  zarr issues the key operations of one mutator
+    concurrently (asyncio.gather over worker threads that cannot be cancelled): the failing operation reports its
+    error only after the operations in flight beside it have finished, so that the schedule is deterministic (the
+    schedule in which a sibling key write OUTLIVES the failing one and lands after save() has cleaned up is a race
+    inside zarr that the harness does not drive)."""
+    import asyncio
+
+    async def quiesce(tr):
+        await asyncio.sleep(0.002)            # lets the sibling operations of the same gather start
+        for _ in range(4000):
+            if tr.inflight <= 0:
+                break
+            await asyncio.sleep(0.001)
+
+    async def wrapper(self, key, *a, **kw):
+        tr = _CUR[0]
+        if tr is None or not tr.active or tr.cur is None or tr.depth <= 0:
+            return await orig(self, key, *a, **kw)
+        j = tr.cur
+        ops = tr.store_ops[j]
+        m = len(ops)
+        ops.append(name + ":" + str(key))
+        if tr.deep is not None and tr.inject_at == j and m == tr.deep and not tr.fired:
+            tr.fired = True
+            tr.site = tr.sites[j]
+            tr.deep_key = (name, str(key))
+            tr.hits = 1
+            await quiesce(tr)
+            raise tr.make_exc("injected fault inside event %d at store operation %d (%s %s)" % (j, m, name, key))
+        if tr.deep is not None and tr.persist and tr.fired and tr.deep_key == (name, str(key)):
+            tr.hits += 1
+            await quiesce(tr)
+            raise tr.make_exc("injected persistent fault, store operation %s %s call #%d" % (name, key, tr.hits))
+        tr.inflight += 1
+        try:
+            return await orig(self, key, *a, **kw)
+        finally:
+            tr.inflight -= 1
 
     wrapper.__name__ = getattr(orig, "__name__", name)
     wrapper.__wrapped__ = orig
@@ -204,6 +319,12 @@ def install():
     zattrs.Attributes.setdefault = _wrap(MutableMapping.setdefault, "w", "attrs.setdefault")
     zattrs.Attributes.pop = _wrap(MutableMapping.pop, "w", "attrs.pop")
     zattrs.Attributes.clear = _wrap(MutableMapping.clear, "w", "attrs.clear")
+
+    # --- the store's own key operations beneath the zarr mutators (deep faults)
+    from zarr.storage import LocalStore
+    for m in ("set", "set_if_not_exists", "delete", "delete_dir"):
+        if hasattr(LocalStore, m):
+            setattr(LocalStore, m, _wrap_store(getattr(LocalStore, m), "store." + m))
 
     # --- the serializer's own write helpers and the byte producers: injection points only
     for m in ("_write_ndarray", "_write_bytes"):
@@ -309,12 +430,13 @@ def quiet():
 
 
 def traced_save(obj, target, mode, store, inject_at=None, exc="os", save_arg=None, save_store=None,
-                handler_fault=None, inside_remove=None):
+                handler_fault=None, inside_remove=None, persist=False, deep=None):
     """run obj.save(target, mode, store) under a Tracer; returns (tracer, outcome, exception)
     outcome: "done" | "exists" (FileExistsError) | "fault" (the injected exception came out) |
              "error:<Type>" (any other exception)"""
     install()
-    tr = Tracer(target, inject_at, exc, handler_fault=handler_fault, inside_remove=inside_remove)
+    tr = Tracer(target, inject_at, exc, handler_fault=handler_fault, inside_remove=inside_remove, persist=persist,
+                deep=deep)
     _CUR[0] = tr
     out, err = "done", None
     try:
@@ -332,7 +454,10 @@ def traced_save(obj, target, mode, store, inject_at=None, exc="os", save_arg=Non
     except FileExistsError as e:
         out, err = "exists", e
     except BaseException as e:  # noqa
-        out, err = "error:" + type(e).__name__, e
+        if getattr(e, "_c08_injected", False):
+            out, err = "fault", e            # OSError(errno) / MemoryError carrying the harness's flag
+        else:
+            out, err = "error:" + type(e).__name__, e
     finally:
         _CUR[0] = None
     if err is not None:
@@ -770,7 +895,7 @@ class Scenario:
         if self.immutable:
             self.lock()
 
-    def run(self, inject_at=None, exc="os", spec=None, handler_fault=None, inside_remove=None):
+    def run(self, inject_at=None, exc="os", spec=None, handler_fault=None, inside_remove=None, persist=False, deep=None):
         """one save on a fresh copy; returns the observation dict"""
         self.fresh()
         obj = build(spec if spec is not None else self.spec, "new")
@@ -794,7 +919,8 @@ class Scenario:
                 save_arg = pathlib.Path(self.target)
             tr, out, err = traced_save(obj, self.target, self.mode, self.store, inject_at, exc,
                                        save_arg=save_arg, save_store=save_store,
-                                       handler_fault=handler_fault, inside_remove=inside_remove)
+                                       handler_fault=handler_fault, inside_remove=inside_remove,
+                                       persist=persist, deep=deep)
         finally:
             os.chdir(old_cwd)
             tempfile.tempdir = old_tmp
@@ -816,7 +942,8 @@ class Scenario:
             "target_unmodified": before_tgt == after_tgt,
             "siblings_changed": diff_snap(before_sib, after_sib),
             "temp_leftovers": leftovers,
-            "fired": tr.fired, "hfired": tr.hfired,
+            "fired": tr.fired, "hfired": tr.hfired, "hits": tr.hits, "overcome": tr.overcome,
+            "store_ops": [len(x) for x in tr.store_ops],
             "temps": [os.path.relpath(t, self.rundir) for t in tr.temps],
             "audit": [[k, (os.path.relpath(v, self.rundir) if isinstance(v, str) and v != "?" else v)] for k, v in tr.audit],
         }
@@ -840,6 +967,14 @@ def slim(obs):
     o = dict(obs)
     o.pop("completed", None)
     return o
+
+
+# one-shot faults: every class (the first six are the cycle of rounds 1-4)
+EXC_CYCLE_ONE = ["os", "rt", "kbd", "os:EIO", "sysexit", "mem", "genexit", "os:ENOSPC", "base", "os:EACCES",
+                 "os:ESTALE", "rt", "os:EAGAIN", "kbd", "os:EINTR", "os", "os:EBUSY", "os:ETIMEDOUT"]
+# persistent faults: what a device / mount / allocator keeps answering (no interrupts, no exit requests)
+EXC_CYCLE_PERSIST = ["os:EIO", "os:ENOSPC", "rt", "os:ESTALE", "os:EACCES", "mem", "os:EAGAIN", "os:EINTR", "os",
+                     "os:EBUSY", "os:ETIMEDOUT"]
 
 
 def sample_positions(n, want):
@@ -962,8 +1097,10 @@ def run_job(job, scratch):
         if job["kind"] == "single":
             out["faults"] = [dict(slim(sc.run(inject_at=job["inject_at"], exc=job.get("exc", "os"),
                                                handler_fault=job.get("handler_fault"),
-                                               inside_remove=job.get("inside_remove"))),
-                                  j=job["inject_at"], exc=job.get("exc", "os"))]
+                                               inside_remove=job.get("inside_remove"),
+                                               persist=job.get("persist", False), deep=job.get("deep"))),
+                                  j=job["inject_at"], exc=job.get("exc", "os"), persist=bool(job.get("persist", False)),
+                                  deep=job.get("deep"))]
             return out
 
         def faulted(j, exc, **kw):
@@ -974,7 +1111,9 @@ def run_job(job, scratch):
                 r["prefix_ok"] = [e[0] for e in r["events"][:j + 1]] == [e[0] for e in clean["events"][:j + 1]]
             r.pop("events")
             r.pop("state_kinds")
+            r.pop("store_ops", None)
             r["j"], r["exc"] = j, exc
+            r["persist"], r["deep"] = bool(kw.get("persist", False)), kw.get("deep")
             return r
 
         n_ev = len(clean["events"])
@@ -1005,9 +1144,22 @@ def run_job(job, scratch):
             return out
         positions = range(n_ev) if job["kind"] == "enum" else sample_positions(n_ev, job.get("n_positions", 4))
         faults = []
+        ph = job.get("phase", 0)
         for j in positions:
-            exc = EXC_CYCLE[(j + job.get("phase", 0)) % len(EXC_CYCLE)]
-            faults.append(faulted(j, exc))
+            # one-shot fault before event j
+            faults.append(faulted(j, EXC_CYCLE_ONE[(j + ph) % len(EXC_CYCLE_ONE)]))
+            if job["kind"] != "enum" and (j + ph) % 2:
+                continue
+            # PERSISTENT fault from event j on: every later call at the same site fails too
+            if job.get("persistent", True):
+                faults.append(faulted(j, EXC_CYCLE_PERSIST[(j + 3 * ph) % len(EXC_CYCLE_PERSIST)], persist=True))
+            # fault INSIDE event j, raised by one of the store's key operations beneath the zarr mutator
+            nops = clean["store_ops"][j] if j < len(clean.get("store_ops", [])) else 0
+            if nops and job.get("deep", True):
+                per = bool((j + ph) % 2)
+                cyc = EXC_CYCLE_PERSIST    # Exception classes only: a BaseException raised on zarr's I/O thread
+                #                            would end its event loop (a defect of the harness, not of the save)
+                faults.append(faulted(j, cyc[(j + 5 * ph + 1) % len(cyc)], persist=per, deep=(j + ph) % nops))
         out["faults"] = faults
         return out
     finally:
